@@ -365,7 +365,7 @@ def run(ctx):
             nonvac["Weak_%s refuted by" % sw] = inv
 
     # ---- 3. behaviours of the spec -> schedules ----------------------------------------------------
-    nsim = 100 if quick else 1200
+    nsim = 100 if quick else 800
     simdir = ctx.subdir("sim")
     scheds = []
     for tag, cfgname in (("base", "C15_sim.cfg"), ("corrupt", "C15_sim_corrupt.cfg")):
@@ -379,8 +379,8 @@ def run(ctx):
     for i, s in enumerate(scheds):
         s["name"] = "tlc-%d" % i
     lib = library(quick)
-    inp = {"scheds": lib + scheds, "enums": enums(quick), "random": 40 if quick else 1000,
-           "node": {"runs": 5 if quick else 40, "steps": 12 if quick else 24, "headLimit": 0, "offsets": 3 if quick else 0}}
+    inp = {"scheds": lib + scheds, "enums": enums(quick), "random": 40 if quick else 600,
+           "node": {"runs": 5 if quick else 24, "steps": 12 if quick else 20, "headLimit": 0, "offsets": 3}}
 
     # ---- 4. the real code ---------------------------------------------------------------------------
     rows_wal, rows_node, fsinfo = execute(ctx, inp)
@@ -507,7 +507,9 @@ def execute(ctx, inp):
     with open(inp_path, "w") as f:
         json.dump(inp, f)
     out = ctx.subdir("c15-out")
-    binp = ctx.go_build_test("consensus", ["zz_verif_c15_test.go", "zz_verif_c15.s"])
+    # the extra tag keeps these two files out of any build that overlays the whole harness directory
+    # without the .s file (body-less go:linkname declarations need it)
+    binp = ctx.go_build_test("consensus", ["zz_verif_c15_test.go", "zz_verif_c15.s"], tags="verif,c15")
     exe = strace_usable(ctx)
     stp = os.path.join(ctx.work, "c15-strace.txt")
     runner = make_wrapper(ctx, exe, binp, stp) if exe else binp
